@@ -34,7 +34,7 @@ ASSUMPTIONS = [
     "documented errors = the exception classes of pyoak.legacy.error; an operation that raises anything else gives no verdict (counted)",
     "operations expected to be rejected that are accepted give no verdict (counted) and join the history",
 ]
-MUST_SEE = ["falsy_replacement_with_parent", "visitor_reused_after_rejection", "wrapper_reusing_own_child", "replace_with_own_child", "adopted_children_checked", "runtime_only_child_field_transform", "rule_replaces_children_of_its_copy", "receiver_below_falsy_parent", 
+MUST_SEE = ["transform_result_is_an_attached_root", "detached_receiver_children_reused", "falsy_replacement_with_parent", "visitor_reused_after_rejection", "wrapper_reusing_own_child", "replace_with_own_child", "adopted_children_checked", "runtime_only_child_field_transform", "rule_replaces_children_of_its_copy", "receiver_below_falsy_parent", 
     "rejected_ASTNodeDuplicateChildrenError", "rejected_ASTNodeParentCollisionError", "rejected_ASTNodeIDCollisionError", "rejected_ASTNodeRegistryCollisionError",
     "rejected_ASTNodeReplaceError", "rejected_ASTNodeReplaceWithError", "rejected_ASTTransformError", "failing_element_not_first", "frames_compared", "nested_failing_element", "two_collided_children",
 ]
@@ -108,8 +108,8 @@ def run_shard(ctx):
             kind = rng.choices(
                 ["dup_seq", "dup_two_fields", "parent_collision", "parent_collision_nested", "id_collision", "attach_collision", "attach_collision_nested",
                  "replace_keys", "replace_dup", "replace_parent_collision", "rw_has_parent", "rw_wrong_class", "rw_none_required", "rw_attach_fails",
-                 "transform_raises", "transform_removes_required", "transformer_raises", "rw_clone_of_attached", "parent_collision_two", "transform_runtime_children", "rw_own_child", "rw_wrapper_reuses_child", "transform_reused_visitor", "rw_falsy_with_parent"],
-                [3, 3, 1, 1, 3, 3, 1, 3, 1, 1, 3, 3, 3, 1, 3, 3, 3, 2, 2, 2 if f"{P}Seq" in U.cls else 0, 2, 2, 2, 2],
+                 "transform_raises", "transform_removes_required", "transformer_raises", "rw_clone_of_attached", "parent_collision_two", "transform_runtime_children", "rw_own_child", "rw_wrapper_reuses_child", "transform_reused_visitor", "rw_falsy_with_parent", "transform_result_refused", "replace_dup_detached_receiver"],
+                [3, 3, 1, 1, 3, 3, 1, 3, 1, 1, 3, 3, 3, 1, 3, 3, 3, 2, 2, 2 if f"{P}Seq" in U.cls else 0, 2, 2, 2, 2, 2, 2],
             )[0]
             where = rng.choice(["first", "middle", "last"])
             if kind == "dup_seq":
@@ -224,6 +224,29 @@ def run_shard(ctx):
                 if x is None or x is n:
                     return None
                 return ("replace_with", "first", n, [x], lambda: n.replace_with(x))
+            if kind == "transform_result_refused":
+                # the visitor completes and hands back an attached root of its own (an existing tree); the final swap into the
+                # receiver's slot is refused (the slot takes leaves only): that tree stays exactly as it was
+                lf = leaf()
+                holder = U.cls[f"{P}Lst"](elems=[leaf()], opt=lf, origin=NO)
+                X = U.cls[f"{P}Un"](child=U.cls[f"{P}Bin"](left=leaf(), right=leaf(), origin=NO), origin=NO)
+                F.add(holder, X)
+                V = type("RV4", (ASTTransformVisitor,), {f"visit_{P}Leaf": lambda self_, node: X})
+                ctx.count("transform_result_is_an_attached_root")
+                return ("transform", "first", lf, [X], lambda: V().transform(lf))
+            if kind == "replace_dup_detached_receiver":
+                # a tree is detached, some of its former children are re-used under other attached parents; then the stale,
+                # still detached node is asked to replace() itself with duplicated children: refused, nothing moves
+                a_, b_, c_ = leaf(), leaf(), leaf()
+                oldn = U.cls[f"{P}List"](items=(a_, b_, c_), origin=NO)
+                F.add(oldn)
+                oldn.detach()
+                for x_ in (a_, b_):
+                    x_.attach()
+                new_home = U.cls[f"{P}Call"](args=(leaf(), a_), kwargs=[b_], origin=NO)
+                F.add(new_home)
+                ctx.count("detached_receiver_children_reused")
+                return ("replace", "last", oldn, [a_, b_, c_, c_], lambda: oldn.replace(items=(a_, b_, c_, c_)))
             if kind == "rw_falsy_with_parent":
                 # the replacement already has a parent - and is falsy in a boolean context (a block without statements)
                 x = U.cls[f"{P}Block"](header=leaf() if rng.random() < 0.5 else None, origin=NO)
@@ -476,6 +499,11 @@ def run_shard(ctx):
                 # the recorded mechanism loses the links of the receiver's children that the failed construction had not
                 # yet adopted: children that come, in child order of the new value, before the first child that could
                 # have failed (one that was detached or had another parent) are adopted and must be found unchanged
+                if before["nodes"][id(recv)][0]:
+                    # ... and it concerns attached receivers only (their detach_self() is what clears the links): a receiver
+                    # that was detached already has nothing cleared, so nothing at all may differ afterwards
+                    ctx.count("detached_receiver_rejections")
+                    return generic + "|receiver-was-detached", roles
                 safe = set()
                 if ename != "ASTNodeDuplicateChildrenError":  # duplicates are detected before any child is adopted
                     fname, val = R.last_replace
